@@ -98,22 +98,54 @@ theorem filterMapM_mem {α : Type} (f : α → Except Exc (Option α))
           · rw [hf a _ hfa]; simp
           · exact List.mem_cons_of_mem _ (filterMapM_mem f hf l bs hl y hy)
 
+theorem bind_pure_ok {α β : Type} (x : Except Exc α) (f : α → β) (r : β)
+    (h : (do let a ← x; pure (f a)) = Except.ok r) : ∃ a, x = .ok a ∧ r = f a := by
+  cases x with
+  | error e => simp [bind, Except.bind] at h
+  | ok a => simp only [bind, Except.bind, pure, Except.pure, Except.ok.injEq] at h; exact ⟨a, rfl, h.symm⟩
+
+theorem map_ok {α β : Type} (x : Except Exc α) (f : α → β) (r : β)
+    (h : f <$> x = Except.ok r) : ∃ a, x = .ok a ∧ r = f a := by
+  cases x with
+  | error e => simp [Functor.map, Except.map] at h
+  | ok a => simp only [Functor.map, Except.map, Except.ok.injEq] at h; exact ⟨a, rfl, h.symm⟩
+
 /-! ### lookups hand back members -/
 
 theorem findVar_mem {vs : List Var} {n : Str} {v : Var} (h : findVar vs n = some v) : v ∈ vs :=
   List.mem_of_find?_eq_some h
 
-theorem findMember_wf {v : Var} {m : Str} {b : Base} (hv : v.WF) (h : findMember v m = some b) : b.WF := by
+theorem findMember_wf {v : Var} {m : Str} {b : Member} (hv : v.WF) (h : findMember v m = some b) : b.WF := by
   cases v with
   | base _ => simp [findMember] at h
   | seq _ _ _ => simp [findMember] at h
   | struct n ms => exact hv b (List.mem_of_find?_eq_some h)
   | grid n a ms =>
-    have := List.mem_of_find?_eq_some h
+    simp only [findMember, Option.map_eq_some_iff] at h
+    obtain ⟨x, hx, rfl⟩ := h
+    have := List.mem_of_find?_eq_some hx
     simp only [List.mem_cons] at this
     rcases this with rfl | hm
     · exact hv.1
-    · exact hv.2 b hm
+    · exact hv.2 x hm
+
+theorem addMember_wf {ms : List Member} {b : Member} (hms : ∀ m ∈ ms, m.WF) (hb : b.WF) :
+    ∀ m ∈ addMember ms b, m.WF := by
+  intro m hm
+  cases b with
+  | base x =>
+    simp only [addMember, setMember, List.mem_append, List.mem_filter, List.mem_singleton] at hm
+    rcases hm with hm | rfl
+    · exact hms m hm.1
+    · exact hb
+  | struct n bs =>
+    simp only [addMember] at hm
+    split at hm
+    · exact hms m hm
+    · simp only [List.mem_append, List.mem_singleton] at hm
+      rcases hm with hm | rfl
+      · exact hms m hm
+      · exact hb
 
 theorem setBase_wf {ms : List Base} {b : Base} (hms : ∀ m ∈ ms, m.WF) (hb : b.WF) :
     ∀ m ∈ setBase ms b, m.WF := by
@@ -125,7 +157,7 @@ theorem setBase_wf {ms : List Base} {b : Base} (hms : ∀ m ∈ ms, m.WF) (hb : 
 
 /-! ### `apply_selection` -/
 
-theorem filterRows_mem (n : Str) (cols : List (Str × Str)) (rows rows' : List (List Int)) (cond : Str)
+theorem filterRows_mem (n : Str) (cols : List (Str × Str)) (rows rows' : List (List Val)) (cond : Str)
     (h : filterRows n cols rows cond = .ok rows') : ∀ r ∈ rows', r ∈ rows := by
   unfold filterRows at h
   split at h
@@ -138,6 +170,7 @@ theorem filterRows_mem (n : Str) (cols : List (Str × Str)) (rows rows' : List (
         split at hab
         · split at hab
           · simp only [Except.ok.injEq, Option.some.injEq] at hab; exact hab.symm
+          · simp at hab
           · simp at hab
           · simp at hab
         · simp at hab
@@ -242,8 +275,8 @@ theorem collect1_wf' (src : Dataset) (hsrc : src.WF) (out out' : List Var) (p : 
       rename_i v _ _ hf
       split at h
       · simp at h
-      · rename_i b hb
-        have hbwf : b.WF := findMember_wf (hsrc _ (findVar_mem hf)) hb
+      · rename_i mem hb
+        have hbwf : mem.WF := findMember_wf (hsrc _ (findVar_mem hf)) hb
         split at h
         · simp only [Except.ok.injEq] at h; subst h
           refine append_all out _ hout ?_
@@ -251,14 +284,60 @@ theorem collect1_wf' (src : Dataset) (hsrc : src.WF) (out out' : List Var) (p : 
         · rename_i ms ho
           simp only [Except.ok.injEq] at h; subst h
           have hms : ∀ m ∈ ms, m.WF := hout _ (findVar_mem ho)
-          exact map_replace_wf' out _ _ hout (setBase_wf hms hbwf)
+          exact map_replace_wf' out _ _ hout (addMember_wf hms hbwf)
         · rename_i a ms ho
           have hg : a.WF ∧ ∀ m ∈ ms, m.WF := hout _ (findVar_mem ho)
           split at h
-          · simp only [Except.ok.injEq] at h; subst h; exact hout
-          · simp only [Except.ok.injEq] at h; subst h
-            exact map_replace_wf' out _ _ hout ⟨hg.1, setBase_wf hg.2 hbwf⟩
+          · rename_i b
+            split at h
+            · simp only [Except.ok.injEq] at h; subst h; exact hout
+            · simp only [Except.ok.injEq] at h; subst h
+              exact map_replace_wf' out _ _ hout ⟨hg.1, setBase_wf hg.2 hbwf⟩
+          · simp at h
         · simp at h
+  · -- three parts: a member of a structure nested in a structure
+    split at h
+    · simp at h
+    · rename_i sms hf
+      have hsms : ∀ m ∈ sms, m.WF := hsrc _ (findVar_mem hf)
+      split at h
+      · simp at h
+      · simp at h
+      · rename_i bs hfm
+        have hbs : ∀ b ∈ bs, b.WF := hsms _ (List.mem_of_find?_eq_some hfm)
+        split at h
+        · simp at h
+        · rename_i b hfb
+          have hb : b.WF := hbs _ (List.mem_of_find?_eq_some hfb)
+          have hnew : ∀ nm, (Member.struct nm [b]).WF := by
+            intro nm x hx; simp at hx; subst hx; exact hb
+          split at h
+          · simp only [Except.ok.injEq] at h; subst h
+            refine append_all out _ hout ?_
+            intro m hm; simp at hm; subst hm; exact hnew _
+          · rename_i ms ho
+            have hms : ∀ m ∈ ms, m.WF := hout _ (findVar_mem ho)
+            split at h
+            · simp only [Except.ok.injEq] at h; subst h
+              refine map_replace_wf' out _ _ hout ?_
+              intro m hm
+              simp only [List.mem_append, List.mem_singleton] at hm
+              rcases hm with hm | rfl
+              · exact hms m hm
+              · exact hnew _
+            · rename_i obs hfo
+              have hobs : ∀ b ∈ obs, b.WF := hms _ (List.mem_of_find?_eq_some hfo)
+              simp only [Except.ok.injEq] at h; subst h
+              refine map_replace_wf' out _ _ hout ?_
+              intro m hm
+              simp only [List.mem_map] at hm
+              obtain ⟨x, hx, rfl⟩ := hm
+              split
+              · exact setBase_wf hobs hb
+              · exact hms x hx
+            · simp at h
+          · simp at h
+    · simp at h
   · simp at h
 
 /-! ### "fix sequence data" -/
@@ -298,25 +377,30 @@ theorem map_replace_wf (out : List Var) (n : Str) (w : Var) (hout : ∀ v ∈ ou
 theorem sliceGrid_wf (a : Base) (ms : List Base) (sl : List PSlice) (r : Base × List Base)
     (ha : a.WF) (hms : ∀ m ∈ ms, m.WF) (h : sliceGrid a ms sl = .ok r) : r.1.WF ∧ ∀ m ∈ r.2, m.WF := by
   unfold sliceGrid at h
-  split at h
-  · simp only [bind, Except.bind, pure, Except.pure] at h
-    cases hsa : sliceBase a sl with
-    | error e => simp [hsa] at h
-    | ok a' =>
-      simp only [hsa] at h
-      cases hm : (ms.zip sl).mapM (fun x => sliceBase x.1 [x.2]) with
-      | error e =>
-        have : (ms.zip sl).mapM (fun (x : Base × PSlice) => match x with | (m, s) => sliceBase m [s]) = .error e := hm
-        simp [this] at h
-      | ok ms' =>
-        have hm' : (ms.zip sl).mapM (fun (x : Base × PSlice) => match x with | (m, s) => sliceBase m [s]) = .ok ms' := hm
-        simp only [hm', Except.ok.injEq] at h
-        subst h
-        refine ⟨(sliceBase_wf a a' sl ha hsa).1, ?_⟩
-        intro m hmem
-        obtain ⟨x, hx, hfx⟩ := mapM_ok_mem _ _ _ hm m hmem
-        exact (sliceBase_wf x.1 m [x.2] (hms _ (List.of_mem_zip hx).1) hfx).1
-  · simp at h
+  simp only [bind, Except.bind, pure, Except.pure] at h
+  cases hsa : sliceBase a sl with
+  | error e => simp [hsa] at h
+  | ok a' =>
+    simp only [hsa] at h
+    split at h
+    · simp at h
+    · rename_i ms' hm
+      simp only [Except.ok.injEq] at h
+      subst h
+      refine ⟨(sliceBase_wf a a' sl ha hsa).1, ?_⟩
+      intro m hmem
+      simp only [List.mem_append] at hmem
+      rcases hmem with hmem | hmem
+      · obtain ⟨x, hx, hfx⟩ := mapM_ok_mem _ _ _ hm m hmem
+        obtain ⟨x1, x2⟩ := x
+        simp only at hfx
+        split at hfx
+        · rename_i m' hs
+          simp only [Except.ok.injEq] at hfx
+          subst hfx
+          exact (sliceBase_wf x1 _ [x2] (hms _ (List.of_mem_zip hx).1) hs).1
+        · simp at hfx
+      · exact hms m (List.mem_of_mem_drop hmem)
 
 theorem slice1_wf (out out' : List Var) (p : ProjItem) (hout : ∀ v ∈ out, v.WF)
     (h : slice1 out p = .ok out') : ∀ v ∈ out', v.WF := by
@@ -368,21 +452,50 @@ theorem slice1_wf (out out' : List Var) (p : ProjItem) (hout : ∀ v ∈ out, v.
           have hms : ∀ m ∈ ms, m.WF := hout _ (findVar_mem hf)
           split at h
           · simp at h
+          · simp at h
           · rename_i b hb
-            simp only [bind, Except.bind, pure, Except.pure] at h
-            split at h
-            · simp at h
-            · rename_i b' hs
-              simp only [Except.ok.injEq] at h; subst h
-              have hbwf : b.WF := hms _ (List.mem_of_find?_eq_some hb)
-              refine map_replace_wf out _ _ hout ?_
-              intro m hm
-              simp only [List.mem_map] at hm
-              obtain ⟨x, hx, rfl⟩ := hm
-              split
-              · exact (sliceBase_wf b b' _ hbwf hs).1
-              · exact hms x hx
+            obtain ⟨b', hs, rfl⟩ := bind_pure_ok _ _ _ h
+            have hbwf : b.WF := hms _ (List.mem_of_find?_eq_some hb)
+            refine map_replace_wf out _ _ hout ?_
+            intro m hm
+            simp only [List.mem_map] at hm
+            obtain ⟨x, hx, rfl⟩ := hm
+            split
+            · exact (sliceBase_wf b b' _ hbwf hs).1
+            · exact hms x hx
         · simp at h
+  · -- three parts
+    split at h
+    · rename_i ms hf
+      have hms : ∀ m ∈ ms, m.WF := hout _ (findVar_mem hf)
+      split at h
+      · simp at h
+      · split at h
+        · rename_i bs hfm
+          have hbs : ∀ b ∈ bs, b.WF := hms _ (List.mem_of_find?_eq_some hfm)
+          split at h
+          · simp at h
+          · split at h
+            · simp only [Except.ok.injEq] at h; subst h; exact hout
+            · split at h
+              · simp at h
+              · rename_i b hb
+                obtain ⟨b', hs, rfl⟩ := bind_pure_ok _ _ _ h
+                have hbwf : b.WF := hbs _ (List.mem_of_find?_eq_some hb)
+                refine map_replace_wf out _ _ hout ?_
+                intro m hm
+                simp only [List.mem_map] at hm
+                obtain ⟨x, hx, rfl⟩ := hm
+                split
+                · intro y hy
+                  simp only [List.mem_map] at hy
+                  obtain ⟨z, hz, rfl⟩ := hy
+                  split
+                  · exact (sliceBase_wf b b' _ hbwf hs).1
+                  · exact hbs z hz
+                · exact hms x hx
+        · simp at h
+    · simp at h
   · simp at h
 
 /-! ### the whole pipeline -/
